@@ -21,6 +21,9 @@ func idToRelationID(c *api.Context, namespace string, id b6.Identifiable) b6.Fea
 
 // Add the given tag to the given feature.
 func addTag(c *api.Context, id b6.Identifiable, tag b6.Tag) (ingest.Change, error) {
+	if err := requireIdentifiable("add-tag", id); err != nil {
+		return nil, err
+	}
 	tags := make(ingest.AddTags, 1)
 	tags[0] = ingest.AddTag{ID: id.FeatureID(), Tag: tag}
 	return tags, nil
